@@ -24,6 +24,8 @@ def sub(pool, **kw):
     """constant substitutions for a pool suffix of MC_Router.tla"""
     s = {'Cfgs': 'Cfgs' + pool, 'Bases': 'Bases' + pool, 'HOps': 'HOps' + pool, 'ROps': 'ROps' + pool, 'COps': 'COps' + pool,
          'UOps': 'UOps' + pool, 'Probes': 'Probes' + pool, 'ProbeMethods': 'Methods' + pool, 'CaseExtra': 'NoExtra', 'UrlProbes': 'NoUrls', 'THProbes': 'NoUrls', 'MOps': 'NoMOps'}
+    if pool in ('X', 'T', 'C'):
+        s['MOps'] = 'MiscOps'
     s.update(kw)
     return s
 
